@@ -50,16 +50,16 @@ func init() {
 }
 
 var c17LookupKeys = map[string][]string{
-	"string":      {"a", "A", "ab", "b", "é"},
-	"int8":        {"-128", "-1", "0", "1", "127"},
-	"int16":       {"-32768", "-1", "0", "255", "32767"},
-	"int32":       {"-2147483648", "-1", "0", "65536", "2147483647"},
-	"int64":       {"-9223372036854775808", "-1", "0", "9007199254740993", "9223372036854775807"},
-	"uint8":       {"0", "1", "127", "128", "255"},
-	"uint16":      {"0", "1", "32767", "32768", "65535"},
-	"uint32":      {"0", "1", "2147483647", "2147483648", "4294967295"},
-	"uint64":      {"0", "1", "9223372036854775807", "9223372036854775808", "18446744073709551615"},
-	"decimal64":   {"-1.5", "0", "0.01", "1.5", "10"},
+	"string":    {"a", "A", "ab", "b", "é"},
+	"int8":      {"-128", "-1", "0", "1", "127"},
+	"int16":     {"-32768", "-1", "0", "255", "32767"},
+	"int32":     {"-2147483648", "-1", "0", "65536", "2147483647"},
+	"int64":     {"-9223372036854775808", "-1", "0", "9007199254740993", "9223372036854775807"},
+	"uint8":     {"0", "1", "127", "128", "255"},
+	"uint16":    {"0", "1", "32767", "32768", "65535"},
+	"uint32":    {"0", "1", "2147483647", "2147483648", "4294967295"},
+	"uint64":    {"0", "1", "9223372036854775807", "9223372036854775808", "18446744073709551615"},
+	"decimal64": {"-1.5", "0", "0.01", "1.5", "10"},
 	// values that only differ in the last fraction digits
 	"decimal64-9": {"2", "2.000000001", "2.000000002", "-2.000000001", "0.000000001"},
 	"boolean":     {"false", "true"},
